@@ -21,6 +21,8 @@ META = (META[0] + " " + META_EXTRA, META[1])
 
 def run(chk, tier):
     db = D.load("checks")
+    from ..rules import params as _PR
+    _PR.check(chk, db, ['_set/', '_flat_set/'], floor=30)
     totals = {}
     for rq, needs_full in SETS.items():
         if not db.rec_by_q.get(rq):
